@@ -162,6 +162,19 @@ def _cases_class(tier, rng):
                 ops.append((rng.choice(("to_array", "mask", "mask_linear", "to_array_unsplat")),))
         backend = "shared_memory_dict" if q % 9 == 0 else BACKENDS[q % 2]
         yield {"backend": backend, "shape": shape, "internal": internal, "mask": mask, "ops": ops}
+    # 3. overwrite histories: an element is written, the whole array is read, the element is overwritten by a value of
+    #    the same serialised size, and everything is read again (every read must show the second value)
+    for q, mask in enumerate(masks):
+        shape = tuple(rng.randint(1, 2) for m in mask if m)
+        internal = tuple(rng.randint(1, 2) for m in mask if not m)
+        k = tuple(rng.randrange(d) for d in shape)
+        fs = full_shape(shape, internal, mask)
+        for n1, n2 in ((10, 15), (11, 16), (12, 17)):
+            for read in ("to_array_unsplat", "to_array", "mask_linear"):
+                ops = [("dump", k, n1), (read,), ("dump", k, n2), ("to_array_unsplat",), ("to_array",),
+                       ("get", tuple(rng.randrange(d) for d in fs)), ("get_from_index", 0)]
+                for backend in BACKENDS:
+                    yield {"backend": backend, "shape": shape, "internal": internal, "mask": mask, "ops": ops}
 
 
 def _check_class(case):
